@@ -434,12 +434,86 @@ def make(key, reqs):
     return lambda: ConcHarness(tuple(key), tuple(reqs))
 
 
+class BeanHarness(object):
+    """Two (three) requests served concurrently whose results are instances of classes that no dump has seen before:
+    the classes are created afresh in every execution, so whatever the translator remembers per class is built during the race."""
+    import jsonrpclib.jsonclass as _jc
+
+    audited = (_jc.__file__,)
+
+    def __init__(self, version, shape, n):
+        self.version, self.shape, self.n = version, shape, n
+        self.replies = {}
+        self.finished = False
+
+    def build(self):
+        import sys
+        import types
+
+        sys.modules.setdefault("verif_fresh", types.ModuleType("verif_fresh"))  # the module the translator finds the fresh classes in
+        ns = {"__module__": "verif_fresh"}
+        if self.shape == "slots":
+            Base = type("Base", (object,), dict(ns, __slots__=("a", "_p")))
+            Sub = type("Sub", (Base,), dict(ns, __slots__=("b",)))
+        elif self.shape == "mixed":
+            Base = type("Base", (object,), dict(ns, __slots__=("a", "_p")))
+            Sub = type("Sub", (Base,), dict(ns))
+        else:
+            Base = type("Base", (object,), dict(ns))
+            Sub = type("Sub", (Base,), dict(ns))
+
+        def get():
+            o = Sub()
+            o.a, o._p, o.b = 1, [2], {"k": 3}
+            return [o, {"k": o}]
+        return get
+
+    def worker(self, n):
+        try:
+            self.replies[n] = self.d._marshaled_dispatch(json.dumps({"jsonrpc": "2.0", "id": n, "method": "get"} if n != 1 else {"id": n, "method": "get", "params": []}), None)
+        except Exception as ex:
+            self.replies[n] = ("raised", repr(ex))
+
+    def main(self):
+        self.d = SimpleJSONRPCDispatcher(config=Config(version=self.version))
+        self.d.register_function(self.build(), "get")
+        ts = [sched.MThread(target=self.worker, args=(n,), name="req%d" % n) for n in range(self.n)]
+        for t in ts:
+            t.start()
+        for t in ts:
+            t.join()
+        self.finished = True
+
+    def final(self, s):
+        v = []
+        if not self.finished:
+            return (s.status, [("C13/concurrent-dispatch-does-not-terminate", "status %s" % s.status)])
+        bean = {"__jsonclass__": ["verif_fresh.Sub", []], "a": 1, "_p": [2], "b": {"k": 3}}
+        for n in range(self.n):
+            got = parsed(self.replies.get(n))
+            res = got.get("result") if isinstance(got, dict) else None
+            form_ok = isinstance(got, dict) and got.get("id") == n and (("jsonrpc" in got) == (n != 1 and self.version >= 2))
+            if res != [bean, {"k": bean}] or not form_ok:
+                v.append(("C13/reply-depends-on-concurrent-request", "request %d (result: two instances of a fresh %s class) served concurrently with %d other(s) answered %r" % (n, self.shape, self.n - 1, self.replies.get(n))))
+        return (tuple(sorted((k, str(x)) for k, x in self.replies.items())), v)
+
+
+def make_beans(version, shape, n):
+    sched.install()
+    return lambda: BeanHarness(version, shape, n)
+
+
 def harnesses(tier):
     out = []
     keys = [WORLD_KEYS[0], WORLD_KEYS[1], WORLD_KEYS[5]]
     for key in keys:
         for pair in PAIRS:
             out.append((("checks.c13", "make", (key, pair)), "conc/%s/%s" % (key[0], "-".join(map(str, pair)))))
+        if key[0] != "DEFAULT":
+            for shape in ("slots", "mixed", "plain"):
+                out.append((("checks.c13", "make_beans", (key[0], shape, 2)), "conc-beans/%s/%s/2" % (key[0], shape)))
+                if tier == "thorough":
+                    out.append((("checks.c13", "make_beans", (key[0], shape, 3)), "conc-beans/%s/%s/3" % (key[0], shape)))
         if tier == "thorough":
             for tr in TRIPLES:
                 out.append((("checks.c13", "make", (key, tr)), "conc/%s/%s" % (key[0], "-".join(map(str, tr)))))
@@ -465,7 +539,7 @@ META = {
     "shared DEFAULT config); unconvertible-results: methods returning a cyclic, a 100000-deep, a tuple-keyed result, a bean whose serialisation method raises, or a Fault built with the default / the server's own Config / shared between calls, alone and in a "
     "batch, 1.0 and 2.0 form, server 1.0/2.0, translation on/off; marker-values: 17 values of the jsonrpc member (strings spelling other versions, numbers, booleans, null, containers) x 6 request kinds, alone and at two batch positions, server 1.0/2.0, translation on/off (presence of the member, not its value, selects the form); long-history: each menu request after 130 repetitions of each menu request, after 1100 (thorough up to 70000) repetitions of 4 of them, "
     "after 40 cycles through the menu and after large batches / large requests, on 3 configurations (the N-th reply equals a fresh dispatcher's); config-copy: every sequence of <=2 mutations from a 16-mutation menu on the copy and on the original from 5 start states (default, populated tables, 1.0 with options off, every option falsy, every option customised); "
-    "concurrent: 8 request pairs (thorough + 2 triples) x 3 configurations, every schedule up to the completed preemption level at line granularity of "
+    "concurrent: 13 request pairs (thorough + 2 triples) x 3 configurations, and 2 (thorough also 3) concurrent requests whose results are instances of slotted / mixed / plain classes created afresh in every execution (line granularity of jsonclass.py),  every schedule up to the completed preemption level at line granularity of "
     "SimpleJSONRPCServer.py, jsonrpc.py, config.py; non-trivial = history of length >= 2 / mutation applied / execution with a choice point",
     "bounds": {"quick": {"history_depth": 3, "mutation_depth": 2, "conc_levels": "K ladder 0..3 while predicted <= 3000"},
                "thorough": {"history_depth": 4, "mutation_depth": 2, "conc_levels": "K ladder 0..3 while predicted <= 150000"}},
